@@ -541,6 +541,34 @@ class CallMixin:
                 obj.lo = obj.hi
                 self.note_mutation(obj, "clear")
                 return None
+            if attr == "extend":
+                src = args[0]
+                if isinstance(src, (list, tuple)):
+                    for x in src:
+                        self.call_method(obj, "append", [x], {}, node)
+                    return None
+                if isinstance(src, GenExp):
+                    # deque.extend(<elt> for _ in range(n)) with a side-effect-free elt that does not use the loop variable:
+                    # n copies of elt are appended (n <= 0: none)
+                    g = src.node.generators[0] if len(src.node.generators) == 1 else None
+                    it_ = g.iter if g is not None else None
+                    names_in_elt = {x.id for x in ast.walk(src.node.elt) if isinstance(x, ast.Name)}
+                    tgt = {x.id for x in ast.walk(g.target) if isinstance(x, ast.Name)} if g is not None else set()
+                    if (g is not None and not g.ifs and isinstance(it_, ast.Call) and isinstance(it_.func, ast.Name) and it_.func.id == "range"
+                            and len(it_.args) == 1 and not it_.keywords and isinstance(src.node.elt, (ast.Name, ast.Constant))
+                            and not (names_in_elt & tgt)):
+                        nv = self.eval(it_.args[0], src.env)
+                        if not (isinstance(nv, int) or (isinstance(nv, Sym) and nv.ty == "int")):
+                            raise Unsupported("range() of a non-int in deque.extend")
+                        elt = self.eval(src.node.elt, src.env)
+                        nt = z3.IntVal(nv) if isinstance(nv, int) else nv.t
+                        cnt = z3.If(nt > 0, nt, z3.IntVal(0))
+                        i = z3.Int("i!extend")
+                        obj.arr = z3.Lambda([i], z3.If(z3.And(i >= obj.hi, i < obj.hi + cnt), rterm(elt), z3.Select(obj.arr, i)))
+                        self.note_mutation(obj, "append")
+                        obj.hi = z3.simplify(obj.hi + cnt)
+                        return None
+                raise Unsupported("deque.extend of this iterable")
         if isinstance(obj, EnumMap):
             if attr == "get":
                 default = args[1] if len(args) > 1 else None
